@@ -113,6 +113,7 @@ type gen struct {
 type avoid struct {
 	NamedReturn bool // `return e1, e2` reading a named result in e2 (fast/statement.go Comp.Return assigns sequentially)
 	AddrComplex bool // &x with x complex128 (fast/util.go funAsX1 has no *complex128 case)
+	MethodValue bool // method value x.M with M declared on the value type (fast/selector.go keeps a reference to x)
 }
 
 func (g *gen) name(p string) string { g.nid++; return fmt.Sprintf("%s%s%d", g.pfx, p, g.nid) }
@@ -1234,7 +1235,7 @@ func genProgram(r *vh.Rng, idx int, av avoid) *program {
 			// method values
 			m := g.name("m")
 			k := g.structK
-			if r.Bool() {
+			if r.Bool() || g.avoid.MethodValue {
 				g.line("%s := %s.Inc", m, o)
 				g.feat("method_value_ptr")
 			} else {
@@ -1255,18 +1256,8 @@ func genProgram(r *vh.Rng, idx int, av avoid) *program {
 	}
 	// final read-out of everything that escaped
 	for _, k := range g.kinds {
-		i := g.name("i")
-		g.line("for %s := 0; %s < len(%sgf_%s); %s++ {", i, i, g.pfx, k, i)
-		g.ind++
-		g.emit(k, fmt.Sprintf("%sgf_%s[%s]()", g.pfx, k, i))
-		g.ind--
-		g.line("}")
-		j := g.name("i")
-		g.line("for %s := 0; %s < len(%sgp_%s); %s++ {", j, j, g.pfx, k, j)
-		g.ind++
-		g.emit(k, fmt.Sprintf("*%sgp_%s[%s]", g.pfx, k, j))
-		g.ind--
-		g.line("}")
+		g.readLoop(fmt.Sprintf("%sgf_%s", g.pfx, k), func(i string) { g.emit(k, fmt.Sprintf("%sgf_%s[%s]()", g.pfx, k, i)) })
+		g.readLoop(fmt.Sprintf("%sgp_%s", g.pfx, k), func(i string) { g.emit(k, fmt.Sprintf("*%sgp_%s[%s]", g.pfx, k, i)) })
 		for c := 0; c < 4; c++ {
 			key := string(rune('a' + c))
 			g.line("if %sgm_%s[%q] != nil {", g.pfx, k, key)
@@ -1283,6 +1274,32 @@ func genProgram(r *vh.Rng, idx int, av avoid) *program {
 	g.line("}")
 	g.endDecl()
 	return g.prog
+}
+
+// readLoop: `for i := 0; i < len(sl); i++ { probe; body }` guarded so that the loop runs at least once
+// (its init Env is then seen by the probe at the start of the body)
+func (g *gen) readLoop(sl string, body func(i string)) {
+	i := g.name("i")
+	g.line("if len(%s) > 0 {", sl)
+	g.ind++
+	g.push(false, false)
+	s := g.push(true, false)
+	g.ev(evPre, s.id)
+	g.declare(i, "int")
+	g.line("for %s := 0; %s < len(%s); %s++ {", i, i, sl, i)
+	g.ind++
+	g.push(false, false)
+	g.ev(evProbe, 0)
+	body(i)
+	g.ev(evProbe, 0)
+	g.pop()
+	g.ind--
+	g.line("}")
+	g.pop()
+	g.ev(evPost, s.id)
+	g.pop()
+	g.ind--
+	g.line("}")
 }
 
 func min(a, b int) int {
